@@ -5,3 +5,9 @@ from contracts.C04_polars_api import CONTRACTS as POLARS_API
 from contracts.C03_polars_container_validate import DEPTH_CONTRACTS
 
 CONTRACTS = [SeriesSchemaValidate] + list(POLARS_API) + list(DEPTH_CONTRACTS)
+
+# the verdict of a lazy run is "raise iff something was collected": whatever the depth, the handler keeps EVERY error it is offered
+# (which errors are produced at a depth is decided by the scoped checks, not by the collector)
+from contracts.C02_error_handler import CollectError, CollectErrors
+
+CONTRACTS = list(CONTRACTS) + [CollectError, CollectErrors]
